@@ -369,7 +369,7 @@ def plan(tier, seed):
         for st in API_STATES:
             for srv in SRV:
                 cases.append({'api': [call, st, srv]})
-    for k in range(4000 if tier == 'thorough' else 600):
+    for k in range(40000 if tier == 'thorough' else 600):
         cases.append({'seed': seed, 'i': k})
     rng.shuffle(cases)
     n = 16
